@@ -3,18 +3,11 @@
     Props/C19.v exclude exactly these classes; checks/c19.py evaluates the same
     conditions on the driver side.
     Repaired and removed: root-named-extensions (38fe584), stale-id-path-cache
-    (4564259), layout-path-occupied (01aa490, 3802aa0). *)
+    (4564259), layout-path-occupied (01aa490, 3802aa0), id-needs-json-escape
+    (5a727de).  The one class left concerns the glob matcher, which is external
+    to the model: no theorem of Props/C19.v carries a classifier hypothesis. *)
 From Rocfl Require Import Base.Bytes Model.Listing.
 Open Scope N_scope.
-
-(** id=id-needs-json-escape.  Some committed id contains a quote, a backslash or
-    a control character: the pre-filter (fs.rs:39-40, 1056-1085) reads the raw JSON
-    text, i.e. the ESCAPED id cut at the first quote, so a glob listing and the
-    lookup without layout test the wrong string; a scan that matched the cut
-    text caches that wrong object root (fs.rs:217-221), after which the same
-    handle answers the cut text with CorruptObject (fs.rs:257-267). *)
-Definition c19_id_needs_escape (t : tree) : bool :=
-  existsb needs_escape (committed_ids t).
 
 (** id=glob-qmark-one-byte.  globset compiles the glob to a byte regex ((?-u)), so
     an unescaped [?] stands for exactly one BYTE: it cannot match a non-ASCII
